@@ -102,6 +102,73 @@ pub fn run(ctx: &Ctx, rec: &mut Rec) {
         }
     });
 
+    // (1b) coincidences between the base and the scalar: bases with a short affine coordinate (x or y = +-c,
+    // both coset members, Z = 1 and rescaled) times the scalars 0..=8, c-2..=c+2 and their negatives mod r,
+    // and multi-limb integers whose limbs fold (xor / sum) to those; code that derives a quantity from both
+    // operands (blinding factors, table indices, shortcuts) meets its degenerate case on such pairs
+    {
+        rec.declare_class("k:related-to-base-coordinate");
+        let shorts: Vec<&SE> = zoo.iter().filter(|e| e.class == "short-coordinate" || (e.class == "other-rep" && short_mag(c, &e.m).is_some())).collect();
+        let mut bases: Vec<SE> = Vec::new();
+        for e in zoo.iter() {
+            if short_mag(c, &e.m).is_some() && e.m.x != b(0) {
+                bases.push(e.clone());
+            }
+        }
+        let _ = shorts;
+        rec.count("short_coordinate_bases", bases.len() as u64);
+        par(rec, |w, n, rec| {
+            let mut task = 0usize;
+            for e in &bases {
+                let mag = short_mag(c, &e.m).unwrap();
+                let mut ks: Vec<B> = (0u64..=8).map(b).collect();
+                for d in 0u64..=4 {
+                    if mag + d >= 2 {
+                        ks.push(b(mag + d - 2));
+                    }
+                }
+                let more: Vec<B> = ks.iter().map(|k| (&c.r - k) % &c.r).collect();
+                ks.extend(more);
+                // two-limb integers whose limbs xor / add to the small value
+                let fold: Vec<B> = ks.iter().take(14).flat_map(|k| {
+                    let k0 = k.to_u64_digits().first().copied().unwrap_or(0);
+                    let hi = 0x0123_4567_89ab_cdefu64;
+                    [b(hi ^ k0) + (b(hi) << 64), b(k0.wrapping_sub(hi)) + (b(hi) << 64)]
+                }).collect();
+                ks.extend(fold);
+                ks.sort();
+                ks.dedup();
+                for k in &ks {
+                    task += 1;
+                    if task % n != w {
+                        continue;
+                    }
+                    rec.class("k:related-to-base-coordinate");
+                    rec.class(&format!("P:{}", e.class));
+                    let want_int = c.mul(k, &e.m);
+                    let kr = k % &c.r;
+                    let want_fr = if &kr == k { want_int.clone() } else { c.mul(&kr, &e.m) };
+                    let lk = fr(&kr);
+                    for f in &muls {
+                        rec.form(f.name);
+                        rec.eval(&(f.name, e.key(), kr.to_bytes_le(), 1u8), kr == b(0));
+                        let l = e.l;
+                        let got = guarded(|| (f.f)(&l, &lk));
+                        judge(ctx, rec, P, f.name, got, &want_fr, json!({"k": hexs(&kr), "k_class": "related-to-base-coordinate", "P": el_json(&e.l), "P_class": e.class}));
+                    }
+                    for f in &ints {
+                        let limbs = int_limbs(k, 0);
+                        rec.form(f.name);
+                        rec.eval(&(f.name, e.key(), k.to_bytes_le(), 7u8), k == &b(0));
+                        let l = e.l;
+                        let got = guarded(|| (f.f)(&l, &limbs));
+                        judge(ctx, rec, P, f.name, got, &want_int, json!({"k": hexs(k), "k_class": "related-to-base-coordinate", "limbs": limbs.len(), "P": el_json(&e.l), "P_class": e.class}));
+                    }
+                }
+            }
+        });
+    }
+
     // (2) group order: r*P is an identity representative for every zoo element, G != identity
     par(rec, |w, n, rec| {
         let rl = int_limbs(&c.r, 0);
@@ -238,4 +305,17 @@ pub fn run(ctx: &Ctx, rec: &mut Rec) {
         });
     }
     rec.check_coverage();
+}
+
+/// magnitude c <= 400 when an affine coordinate of either coset member is +-c
+fn short_mag(c: &crate::model::Curve, m: &crate::model::Pt) -> Option<u64> {
+    let lim = b(400);
+    for v in [&m.x, &m.y] {
+        for w in [v.clone(), c.f.neg(v)] {
+            if w <= lim && w != b(0) && w != b(1) {
+                return w.to_u64_digits().first().copied();
+            }
+        }
+    }
+    None
 }
